@@ -62,7 +62,7 @@ PROPS['C18'] = dict(
          '{first 20, last 4, middle, random}, per-slot liveness pattern); oracle = statement computed in host byte '
          'order: count = min(16, size-3), addresses distinct / in subnet / not server, network or broadcast, lookup '
          'returns the slot iff active+authenticated+seen<60s, -1 for server/network/broadcast/unassigned. non-trivial iff '
-         'the server sits within the first 18 host positions (skip logic exercised) or the subnet has <= 32 addresses; 1 case in 3 is a history: slots are handed out by find_available_user, logged in, refreshed, left silent for 1..70 s and handed out again; after every step each tunnel address must resolve to its slot exactly when the slot\'s current session is logged in and was active within 58 s (never when unused, not logged in or silent >= 62 s), and a slot active within 58 s is never handed out; '
+         'the server sits within the first 18 host positions (skip logic exercised) or the subnet has <= 32 addresses; 1 case in 3 is a history: slots are handed out by find_available_user, logged in, refreshed, left silent for 1..70 s and handed out again; after every step each tunnel address must resolve to its slot exactly when the slot\'s current session is logged in and has not been silent for more than 60 s (never when unused, not logged in or silent >= 61 s; the model runs on whole seconds like the server clock, steps include 59 / 60 / 61 s), and a slot active within the last 60 s is never handed out; '
          'distinct = hash of (mask, base, position) / choice tape',
     exhaustive_text='every host position (incl. network and broadcast positions) for 10.0.0.0/20../21 (quick) or /16../21 (thorough) and for 7 bases x /22../30; '
                     '14 boundary positions for every other (mask, base) pair',
